@@ -142,6 +142,7 @@ func (p *solutionPlanUnitsUnitImpl) UnPlan() (bool, error) {
 		stopPositions StopPositions
 	}
 	undos := make([]undo, 0, len(p.solutionPlanUnits))
+	rejected := false
 	for _, solutionPlanUnit := range p.solutionPlanUnits {
 		if !solutionPlanUnit.IsPlanned() {
 			continue
@@ -164,6 +165,7 @@ func (p *solutionPlanUnitsUnitImpl) UnPlan() (bool, error) {
 		solution.plannedPlanUnits.add(p)
 		solution.unPlannedPlanUnits.remove(p)
 		if !p.modelPlanUnitsUnit.PlanAll() {
+			rejected = true
 			continue
 		}
 		for i := len(undos) - 1; i >= 0; i-- {
@@ -181,5 +183,5 @@ func (p *solutionPlanUnitsUnitImpl) UnPlan() (bool, error) {
 		}
 		return false, err
 	}
-	return true, nil
+	return !rejected, nil
 }
